@@ -228,37 +228,54 @@ structure Decoder where
   state : Option FState := none
   dicts : List Dict := []
   maxWindow : Nat := Gen.defaultMaxWindowSize
-  /-- log of window-sized (re)allocations of the scratch, for C11's "check precedes allocation" -/
-  allocLog : List Nat := []
   deriving Repr, Inhabited
 
 def Decoder.setMaxWindowSize (d : Decoder) (w : Nat) : Decoder :=
   { d with maxWindow := min w Gen.maxWindowSize }
 
+/-- what `reset` computes from the source, the registered dictionaries and the limit — the
+previous state is not an input: `FrameDecoderState::new` (first use) and `FrameDecoderState::reset`
+(reuse) leave the same observable state -/
+inductive ResetResult where
+  | keep (e : DErr)                       -- header / window error: the decoder is left unchanged
+  | replace (st : FState) (o : Out Src)   -- the state is replaced (also when the dictionary is missing)
+
+def resetCore (dicts : List Dict) (maxWindow : Nat) (s : Src) : ResetResult :=
+  match readFrameHeader s with
+  | .error e => .keep e
+  | .ok (h, hdrLen, rest) =>
+    match h.windowSize with
+    | .error e => .keep e
+    | .ok w =>
+      if Gen.windowOverLimit w maxWindow then .keep (.windowOverLimit w maxWindow)
+      else
+        let st : FState := { header := h, bytesRead := hdrLen, buf := ({} : DBuf).reset w }
+        match h.dictId with
+        | none => .replace st (.ok rest)
+        | some id =>
+          match dicts.find? (fun x => x.id = id) with
+          | none => .replace st (.err (.dictNotProvided id))
+          | some dict =>
+            .replace { st with entropy := dict.entropy, usingDict := some id,
+                               buf := { st.buf with dict := dict.content } } (.ok rest)
+
 /-- `FrameDecoder::reset` / `init` (both construction paths, `check_window_size`, dictionary).
 On a header / window error the decoder is unchanged; on a missing dictionary the state HAS been
 replaced by the new frame's (dictionary-less) state. -/
 def Decoder.reset (d : Decoder) (s : Src) : Decoder × Out Src :=
+  match resetCore d.dicts d.maxWindow s with
+  | .keep e => (d, .err e)
+  | .replace st o => ({ d with state := some st }, o)
+
+/-- the window-sized (re)allocations `reset` performs on this source: none unless the header
+parses, the window is legal and within the limit (C11: the check precedes the allocation) -/
+def Decoder.resetAllocs (d : Decoder) (s : Src) : List Nat :=
   match readFrameHeader s with
-  | .error e => (d, .err e)
-  | .ok (h, hdrLen, rest) =>
+  | .error _ => []
+  | .ok (h, _, _) =>
     match h.windowSize with
-    | .error e => (d, .err e)
-    | .ok w =>
-      if Gen.windowOverLimit w d.maxWindow then (d, .err (.windowOverLimit w d.maxWindow))
-      else
-        -- `FrameDecoderState::new` (first use) and `reset` (reuse) leave the same observable state
-        let st : FState := { header := h, bytesRead := hdrLen, buf := ({} : DBuf).reset w }
-        let d1 := { d with state := some st, allocLog := d.allocLog ++ [w] }
-        match h.dictId with
-        | none => (d1, .ok rest)
-        | some id =>
-          match d.dicts.find? (fun x => x.id = id) with
-          | none => (d1, .err (.dictNotProvided id))
-          | some dict =>
-            let st' := { st with entropy := dict.entropy, usingDict := some id,
-                                 buf := { st.buf with dict := dict.content } }
-            ({ d1 with state := some st' }, .ok rest)
+    | .error _ => []
+    | .ok w => if Gen.windowOverLimit w d.maxWindow then [] else [w]
 
 def Decoder.isFinished (d : Decoder) : Bool :=
   match d.state with
